@@ -701,12 +701,20 @@ class Writer:
             sections[T_CLASS_DATA] = (cnt, first)
 
         # ---- string data
-        sd_off = []
+        sd_off = [0] * len(self.string_list)
         first = len(buf)
-        for s in self.string_list:
-            sd_off.append(len(buf))
+        layout = list(range(len(self.string_list)))
+        sdo = o.get("string_data_order")     # None (pool order) | "reversed" | a random.Random (shuffled): string_ids only store offsets
+        if sdo == "reversed":
+            layout.reverse()
+        elif sdo is not None:
+            sdo.shuffle(layout)
+        fat = o.get("string_size_pad")       # callable -> redundant groups in the uleb128 utf16_size (valid, non-minimal), or None
+        for i in layout:
+            s = self.string_list[i]
+            sd_off[i] = len(buf)
             data, n = mutf8(s)
-            buf += uleb(n) + data + b"\0"
+            buf += uleb(n, fat() if fat else 0) + data + b"\0"
         if self.string_list:
             sections[T_STRING_DATA] = (len(self.string_list), first)
         pad_after_strings = o.get("pad_after_strings", None)
